@@ -52,7 +52,7 @@ def check_C23(tier, seed):
     full = universe.semantic_universe(tier, seed + 2300)
     rnd = [i for i in full if i["cls"].get("family") == "random"]; fam = [i for i in full if i["cls"].get("family") != "random"]
     nb = 500 if tier == "quick" else 6000
-    base = rnd[:nb] + fam[::max(1, len(fam) // (nb // 2))][: nb // 2]
+    base = universe.spread(rnd, nb) + universe.spread(fam, nb // 2)
     cases = meta.meta_cases(base, seed, tier)
     # one flat instance list for the engine
     flat = []
@@ -167,7 +167,14 @@ def check_C12(tier, seed):
     insts = universe.semantic_universe(tier, seed + 1200)
     # keep queries with variables; build argument maps: the valid one, each variable dropped, an extra name, each variable set to each universe value
     keep = [i for i in insts if i["args"]]
-    keep = keep[: (500 if tier == "quick" else 6000)]
+    # round-robin over the schemas (the universe lists VS1 first: the first 500 would contain no Float / Boolean / list-typed variable at all)
+    by = {}
+    for i in keep: by.setdefault(i["schema"]["name"], []).append(i)
+    order = []
+    while any(by.values()):
+        for k in sorted(by):
+            if by[k]: order.append(by[k].pop(0))
+    keep = order[: (600 if tier == "quick" else 6000)]
     vals = arg_values()
     for inst in keep:
         base = [[k, v] for k, v in sorted(inst["args"].items())]
@@ -175,7 +182,7 @@ def check_C12(tier, seed):
         for k in range(len(base)):
             maps.append(base[:k] + base[k + 1:])
             maps.append(base[:k] + base[k + 1:] + [["zz_other", G.S("x")]])
-            for v in (vals if tier != "quick" else rng.sample(vals, 8)):
+            for v in (vals if tier != "quick" else rng.sample(vals, 8) + [G.I(0), G.F2(3), G.S("a"), G.NULL]):     # every scalar kind is always tried against every variable
                 maps.append(base[:k] + [[base[k][0], v]] + base[k + 1:])
         if len(base) >= 2:   # two bad values at once (MultipleErrors)
             maps.append([[base[0][0], G.L([G.L([G.NULL])])], [base[1][0], G.B(True)]] + base[2:])
